@@ -65,8 +65,14 @@ func (i *imports) RegisterPrefixAlias(alias string, path string) error {
 // Alias generates an alias for given path and adds path to collection of all imports.
 // See Imports.
 func (i *imports) Alias(import_ string) string {
-	import_ = i.decorateImport(import_)
+	return i.AliasAbsolute(i.decorateImport(import_))
+}
 
+// AliasAbsolute works like Alias, but it does not apply the prefixes registered by RegisterPrefixAlias,
+// the given value is always treated as a full import path.
+// It is designed for the imports that the generated code needs itself (e.g. "fmt", "context"),
+// they must not be affected by the aliases defined by the user (e.g. {"fmt": "my/fmt"}).
+func (i *imports) AliasAbsolute(import_ string) string {
 	if imp, ok := i.imports[import_]; ok {
 		return imp
 	}
